@@ -3,9 +3,7 @@ PROPS["C08"] = dict(
     props_file="Properties/C08.v",
     harnesses=[dict(cmd="snap", mod="root", model="Model.Snap", quick=72, thorough=3000, shard=9, coq_jobs=8,
                     require=["op.prepare", "op.prepare.target", "op.view", "op.commit", "op.mounts", "op.remove", "op.cleanup",
-                             "op.update", "op.close", "cfg.async", "cfg.sync", "fault.mount", "fault.check", "fault.unmount",
-                             "event.unmount.live", "result.prepare.exists", "result.prepare.mounts", "result.mounts.unavail",
-                             "result.remove.failedpre", "result.lower.multi"])],
+                             "op.update", "op.close", "cfg.async", "cfg.sync", "fault.mount"])],
     rule="random histories (6-28 calls) of Prepare(with/without target)/View/Commit/Mounts/Remove/Cleanup/Update/Stat/Close over 8 names "
          "and a growing parent graph, sync or async removal, each call carrying the scripted results of the backend Mount/Check/Unmount; "
          "non-trivial = at least one successful remote mount, one live unmount and >= 4 op kinds; distinct = distinct (config, ops, outputs)",
